@@ -320,6 +320,14 @@ impl ReadXml for Maybe<Installed> {
     }
 }
 
+// token-valued leaves: surrounding whitespace is not significant
+fn trimmed(text: Cow<'_, str>) -> Cow<'_, str> {
+    match text {
+        Cow::Borrowed(s) => Cow::Borrowed(s.trim()),
+        Cow::Owned(s) => Cow::Owned(s.trim().to_owned()),
+    }
+}
+
 trait BorrowedReadXml<'i>: Sized + 'i {
     fn borrowed_read_xml(
         reader: &mut NsReader<&'i [u8]>,
@@ -485,7 +493,7 @@ impl<'i> BorrowedReadXml<'i> for TermFrom<'i> {
                     if tag.local_name().as_ref() == b"family" && family.is_none() =>
                 {
                     tracing::trace!(?tag);
-                    family = Some(reader.read_text(tag.to_end().name())?);
+                    family = Some(trimmed(reader.read_text(tag.to_end().name())?));
                 }
                 (ResolveResult::Bound(XNM), Event::Start(tag))
                     if tag.local_name().as_ref() == b"route-filter" =>
@@ -531,14 +539,14 @@ impl<'i> BorrowedReadXml<'i> for RouteFilter<'i> {
                     if tag.local_name().as_ref() == b"address" && address.is_none() =>
                 {
                     tracing::trace!(?tag);
-                    address = Some(reader.read_text(tag.to_end().name())?);
+                    address = Some(trimmed(reader.read_text(tag.to_end().name())?));
                 }
                 (ResolveResult::Bound(XNM), Event::Start(tag))
                     if tag.local_name().as_ref() == b"choice-ident"
                         && prefix_length_range.is_none() =>
                 {
                     tracing::trace!(?tag);
-                    let ident = reader.read_text(tag.to_end().name())?;
+                    let ident = trimmed(reader.read_text(tag.to_end().name())?);
                     if ident.as_ref() != "prefix-length-range" {
                         return Err(ReadError::Other(
                             anyhow!("unexpected 'choice-ident' value '{ident}'").into(),
@@ -550,7 +558,7 @@ impl<'i> BorrowedReadXml<'i> for RouteFilter<'i> {
                                 if tag.local_name().as_ref() == b"choice-value" =>
                             {
                                 tracing::trace!(?tag);
-                                prefix_length_range = Some(reader.read_text(tag.to_end().name())?);
+                                prefix_length_range = Some(trimmed(reader.read_text(tag.to_end().name())?));
                                 break;
                             }
                             (_, Event::Comment(_)) => continue,
